@@ -775,6 +775,8 @@ impl<'c, Q: Queue> Interp<'c, Q> {
                 (self.q.clone().iter_mut_adapt(comp, a, b), v)
             }
             ItKind::Sorted => {
+                self.opname = "adaptor_sorted";
+                CUR_STEP.with(|c| c.set((self.step, self.opname)));
                 let mut v = Vec::new();
                 let mut it = self.q.clone().into_sorted_iter();
                 while let Some(x) = it.next() {
@@ -831,8 +833,15 @@ impl<'c, Q: Queue> Interp<'c, Q> {
             return;
         }
         if got.seq != want.seq {
+            // same elements in another order from a sorted iterator: an ordering defect (C06);
+            // anything else (lost, duplicated, invented elements): an iterator-contract defect (C13)
+            let mut g = got.seq.clone();
+            let mut w = want.seq.clone();
+            g.sort_unstable();
+            w.sort_unstable();
+            let group = if which == ItKind::Sorted && g == w { Group::Sorted } else { Group::IterStd };
             self.fail(
-                Group::IterStd,
+                group,
                 "adaptor_sequence",
                 format!("{:?}.{:?}({},{}) produced {:?}, the same composition over the plain sequence gives {:?}", which, comp, a, b, got.seq, want.seq),
             );
